@@ -136,9 +136,64 @@ def run_bigunit(ctx, case):
     ctx.case(('bigunit', L, case['fmt'], case['version'], case['le'], case['addr_size']), True, dict(case))
 
 
+def run_farinfo(ctx, case):
+    """64-bit DWARF whose section offsets really need 64 bits: abbreviation table, strings and a second unit beyond 4 GiB (sparse
+    streams).  The first unit spans the gap (the bytes between its entries and its end read as zeros)"""
+    import io
+    from vf.enc.sparse import SparseStream
+    from elftools.dwarf.dwarfinfo import DWARFInfo, DebugSectionDescriptor, DwarfConfig
+    le, A, ver, far = case['le'], case['addr_size'], case['version'], case['far']
+    A0, S0, U1 = far + 0x10, far + 0x20, far + 0x40
+    ab = bytes([1, 0x11, 1, 0x03, 0x0e, 0, 0]) + bytes([2, 0x34, 0, 0x03, 0x0e, 0x49, 0x10, 0, 0]) + b'\0'
+
+    def header(length):
+        h = D.initial_length(le, 64, length) + D.u(le, 2, ver)
+        return h + (bytes([1, A]) + D.u(le, 8, A0) if ver >= 5 else D.u(le, 8, A0) + bytes([A]))
+    hl = len(header(0))
+    # unit 0: root(name -> far string), child(name -> near string, type -> child of unit 1), null
+    c0 = hl + 9                      # offset of unit 0's child
+    c1 = U1 + hl + 9                 # offset of unit 1's child
+    u0 = header(U1 - 12) + b'\x01' + D.u(le, 8, S0) + b'\x02' + D.u(le, 8, 1) + D.u(le, 8, c1) + b'\0'
+    body1 = b'\x01' + D.u(le, 8, 1) + b'\x02' + D.u(le, 8, S0) + D.u(le, 8, c0) + b'\0'
+    u1 = header(hl - 12 + len(body1)) + body1
+    total = U1 + len(u1)
+
+    def sec(name, stream, size):
+        return DebugSectionDescriptor(stream=stream, name=name, global_offset=0, size=size, address=0)
+    kw = {arg: None for arg in D.SECTION_ARGS.values()}
+    kw['debug_info_sec'] = sec('.debug_info', SparseStream(total, {0: u0, U1: u1}), total)
+    kw['debug_abbrev_sec'] = sec('.debug_abbrev', SparseStream(A0 + len(ab), {A0: ab}), A0 + len(ab))
+    kw['debug_str_sec'] = sec('.debug_str', SparseStream(S0 + 4, {0: b'\0near\0', S0: b'far\0'}), S0 + 4)
+    tag = 'farinfo|far=%#x' % far
+    try:
+        di = DWARFInfo(config=DwarfConfig(little_endian=le, machine_arch='x64', default_address_size=A), **kw)
+        cus = list(di.iter_CUs())
+        if [cu.cu_offset for cu in cus] != [0, U1] or any(cu['debug_abbrev_offset'] != A0 for cu in cus):
+            ctx.fail(tag + '|units', 'expected units at [0, %#x] with abbreviations at %#x; got %r' % (U1, A0, [(cu.cu_offset, cu['debug_abbrev_offset']) for cu in cus]), case)
+        else:
+            for cu, nm, cn, coff, tgt in ((cus[0], b'far', b'near', c0, c1), (cus[1], b'near', b'far', c1, c0)):
+                top = cu.get_top_DIE()
+                kids = list(top.iter_children())
+                if top.attributes['DW_AT_name'].value != nm or len(kids) != 1 or kids[0].offset != coff or kids[0].attributes['DW_AT_name'].value != cn:
+                    ctx.fail(tag + '|entries', 'unit at %#x: top name %r, children %r' % (cu.cu_offset, top.attributes['DW_AT_name'].value, [(k.offset, k.attributes) for k in kids][:2]), case)
+                    continue
+                t = kids[0].get_DIE_from_attribute('DW_AT_type')
+                if t.offset != tgt or t.cu.cu_offset != (U1 if tgt == c1 else 0):
+                    ctx.fail(tag + '|ref_addr', 'entry at %#x: DW_AT_type -> %#x, expected %#x' % (coff, t.offset, tgt), case)
+            d = di.get_DIE_from_refaddr(c1)
+            if d.tag != 'DW_TAG_variable' or di.get_CU_containing(c1).cu_offset != U1 or di.get_CU_containing(far - 5).cu_offset != 0:
+                ctx.fail(tag + '|by-offset', 'entry at %#x' % c1, case)
+    except Exception as e:  # noqa
+        ctx.fail_exc(tag, e, case)
+    ctx.count('farinfo')
+    ctx.case(('farinfo', far, le, A, ver), True, dict(case))
+
+
 def run_case(ctx, case):
     if case.get('kind') == 'bigunit':
         return run_bigunit(ctx, case)
+    if case.get('kind') == 'farinfo':
+        return run_farinfo(ctx, case)
     E = env()
     w = D.InfoWriter(case)
     secs = w.sections
@@ -599,6 +654,9 @@ def sweep(tier):
         for fmt in ((32, 64) if L < 0x100000 or tier == 'thorough' else (32,)):
             k += 1
             cases.append({'kind': 'bigunit', 'unit_length': L, 'fmt': fmt, 'version': (4, 5, 3, 2)[k % 4], 'addr_size': (8, 4)[k % 2], 'le': bool(k % 3)})
+    # section offsets that need more than 31 / 32 bits (64-bit DWARF on sparse streams)
+    for k, far in enumerate((0x7fffff00, 0xffffff00, 1 << 32, (1 << 40) + 0x100)):
+        cases.append({'kind': 'farinfo', 'far': far, 'version': (4, 5, 3, 5)[k % 4], 'addr_size': (8, 4)[k % 2], 'le': bool(k % 2)})
     return cases
 
 
@@ -608,7 +666,7 @@ def floors(ctx):
     for f in V5:
         if f != 'DW_FORM_implicit_const' and c['form.' + f] == 0:
             out.append('form never exercised: ' + f)
-    for k in ('feat.indirect', 'feat.implicit_const', 'feat.debug_types', 'feat.mixed-units', 'ref.unit', 'ref.addr', 'ref.sig8', 'bigunit.16MiB'):
+    for k in ('feat.indirect', 'feat.implicit_const', 'feat.debug_types', 'feat.mixed-units', 'ref.unit', 'ref.addr', 'ref.sig8', 'bigunit.16MiB', 'farinfo'):
         if c[k] == 0:
             out.append('no case with ' + k)
     for ver in (2, 3, 4, 5):
